@@ -1,7 +1,7 @@
 (* C11 — A stream of pickles decodes one value per call, each as if it stood alone. *)
 From Coq Require Import List ZArith NArith Bool.
 From Coq.Strings Require Import Byte.
-From OgRek Require Import Base Value Reader Decoder Insn PyVM2 DecoderFacts StreamFacts ExecFacts SimFacts.
+From OgRek Require Import Base Value Reader Decoder Insn PyVM2 DecoderFacts StreamFacts ExecFacts SimFacts AloneFacts.
 Import ListNotations.
 
 (* Exactly through each STOP: if Decode accepts p (consuming all of it), then on p followed by
@@ -29,6 +29,56 @@ Theorem C11_stream :
     fst (decode_all fuel cfg st (concat ps)) = rs ++ [(Err EEOF, start_state (final_state st rs))].
 Proof. exact decode_all_chain. Qed.
 Print Assumptions C11_stream.
+
+(* "As if it stood alone", the memo.  A Decode call is self-contained (AloneFacts.self_contained, a
+   computable test of the call's own run) when every GET / BINGET / LONG_BINGET it executes reads a
+   key that a PUT / BINPUT / LONG_BINPUT of the same call wrote, and it executes no MEMOIZE (whose
+   key is the size of the shared memo - in CPython too).  All of the encoder's output (it never
+   emits a memo opcode) and the programs of the property are of this kind.  Such a call returns the
+   same value or the same error, consumes the same bytes and leaves the same state up to the memo,
+   whatever memo m the earlier pickles of the stream left behind - in particular the empty memo of
+   a Decoder that has decoded nothing yet.  For every input, configuration and hook. *)
+Theorem C11_memo_of_earlier_pickles_is_irrelevant : forall cfg st inp m,
+  self_contained cfg st inp ->
+  fst (fst (decode cfg (set_memo st m) inp)) = fst (fst (decode cfg st inp)) /\
+  snd (decode cfg (set_memo st m) inp) = snd (decode cfg st inp) /\
+  same_but_memo (snd (fst (decode cfg st inp))) (snd (fst (decode cfg (set_memo st m) inp))).
+Proof. exact decode_self_contained. Qed.
+Print Assumptions C11_memo_of_earlier_pickles_is_irrelevant.
+
+(* "Values already returned are not altered by later Decode calls": a self-contained call never
+   writes a map or Dict that existed when it started (ids below d_next st), whether it succeeds or
+   fails - provided a PersistentLoad hook does not itself hand back one of the decoder's earlier
+   maps (hook_fresh; trivially true without a hook).  Lists, tuples and scalars are immutable
+   values in the model (the decoder never writes a Go slice in place: C06's stale-view finding is
+   the other side of that).  For pickles that read the memo of an earlier pickle the statement is
+   false by design - they may fetch an earlier dict and extend it, as under CPython
+   (C11_shared_memo_stream below). *)
+Theorem C11_earlier_values_not_altered : forall cfg st inp r st' rest,
+  hook_fresh cfg (d_next st) -> self_contained cfg st inp ->
+  decode cfg st inp = ((r, st'), rest) ->
+  forall g, (g < d_next st)%N -> heap_get (d_heap st') g = heap_get (d_heap st) g.
+Proof. exact decode_sc_keeps_old_objects. Qed.
+Print Assumptions C11_earlier_values_not_altered.
+
+(* a call that executes no memo opcode at all is self-contained *)
+Theorem C11_memo_free_is_self_contained : forall cfg st inp,
+  memo_freeb cfg st inp = true -> self_contained cfg st inp.
+Proof. exact memo_free_self_contained. Qed.
+
+(* non-vacuity: a pickle that stores a dict under key 0 and fetches it again, decoded by a decoder
+   whose earlier pickle left another dict under the same key 0 and on the heap; and a pickle that
+   fetches key 0 without storing it first is not self-contained *)
+Example C11_self_contained_example :
+  let cfg := Build_dconfig true false None in
+  match decode cfg init_state [x7d; x71; x00; x4b; x01; x4b; x02; x73; x2e] with       (* }q\x00K\x01K\x02s. *)
+  | ((Ok _, st1), _) =>
+      self_containedb cfg st1 [x7d; x71; x00; x4b; x03; x68; x00; x73; x2e] = true /\   (* }q\x00K\x03h\x00s. *)
+      self_containedb cfg st1 [x68; x00; x2e] = false /\                                (* h\x00. *)
+      d_memo st1 <> [] /\ hook_fresh cfg (d_next st1)
+  | _ => False
+  end.
+Proof. vm_compute. repeat split; try discriminate. Qed.
 
 (* Streams against CPython (stream_rel, Proofs/SimFacts.v).  For EVERY list of instruction programs
    (each ending with its STOP) - self-contained or not, at any mix of protocols, sharing the memo or
